@@ -47,6 +47,17 @@ def ident(k):
     return ('obj', strict(k))
 
 
+def ident_str(k):
+    """ident() as a canonical string (numerically equal keys give the same string)."""
+    i = ident(k)
+    if i[0] == 'num':
+        v = i[1]
+        if v == v and v not in (float('inf'), float('-inf')) and v == int(v):
+            return 'num:%d' % int(v)
+        return 'num:%r' % float(v)
+    return repr(i)
+
+
 def same(a, b):
     """Strict value equality: same type, floats by sign/inf/nan, containers recursively."""
     return strict(a) == strict(b)
